@@ -1252,6 +1252,9 @@ class PDFPageInterpreter:
     def process_page(self, page: PDFPage) -> None:
         log.debug("Processing page: %r", page)
         (x0, y0, x1, y1) = page.mediabox
+        # A rectangle may be given by any two diagonally opposite corners.
+        (x0, x1) = (min(x0, x1), max(x0, x1))
+        (y0, y1) = (min(y0, y1), max(y0, y1))
         if page.rotate == 90:
             ctm = (0, -1, 1, 0, -y0, x1)
         elif page.rotate == 180:
